@@ -99,6 +99,27 @@ def mutants_of(src, start, end):
             old = m.group(1)
             new = vs[(vs.index(old) + 1) % len(vs)]
             yield p, old, new, '%s::%s -> %s::%s' % (en, old, en, new)
+    # a negation dropped: `!x` -> `x`
+    for m in re.finditer(r'(?<![=!<>\w)\]])!(?=[A-Za-z_(*])', msk[start:end]):
+        p = start + m.start()
+        if skipped(p) or re.match(r'\w+!', text[max(start, p - 12):p + 1].split()[-1] if text[max(start, p - 12):p + 1].split() else ''):
+            continue
+        yield p, '!', '', 'negation dropped: %s' % text[p:p + 40].split('\n')[0]
+    # a filtering / skipping adapter line of an iterator chain deleted
+    for m in re.finditer(r'(?m)^[ \t]*\.(filter|skip|take|rev|skip_while|take_while)\(', msk[start:end]):
+        p = start + m.start()
+        op = start + m.end() - 1
+        depth, k = 0, op
+        while k < end:
+            if msk[k] == '(':
+                depth += 1
+            elif msk[k] == ')':
+                depth -= 1
+                if depth == 0:
+                    break
+            k += 1
+        stmt = text[p:k + 1]
+        yield p, stmt, '', 'adapter deleted: %s' % ' '.join(stmt.split())[:70]
     # `if COND {` negated
     for m in re.finditer(r'(?<![A-Za-z0-9_])if (?!let\b)', msk[start:end]):
         p = start + m.end()
